@@ -274,6 +274,9 @@ def rand_case(rng, kinds):
             tasks[t][8] = rng.choice([1, 4, 8])
             if mode != "any":       # the parents of a completed task are complete in a run
                 pass
+        if tasks[t][6] and len(ch[t]) >= 2 and rng.random() < 0.3:
+            c = rng.choice(ch[t])          # a child cancelled before the conditional completed
+            tasks[c][0], tasks[c][3], tasks[c][4] = 8, 0, 0
         draw = rng.randrange(max(1, len(ch[t]))) if rng.random() < 0.95 else rng.choice([-1, len(ch[t])])
         op = ["notify", t, rng.choice([4, 9]), draw]
     elif k == "sched":
